@@ -179,6 +179,24 @@ Example C15_repaired_fixed_point_reachable :
   ~ nthq xR 0 == nthq yR 0.
 Proof. exact repaired_witness_facts. Qed.
 
+(* ---- the activity-coefficient model handed to LLE / SLE ----
+   thermo.Gamma(chemicals) keeps one object per key in a class-level cache.  For every history of requests the object
+   returned is built for exactly the order of chemicals asked for, so gamma_i is attributed to chemical i of the caller
+   (the key equality is translated from activity_coefficients.py on every run) *)
+Theorem C15_gamma_request_order : forall hg c chems c' r,
+  gamma_request hg c chems = (c', r) -> gres_order r = chems.
+Proof. exact gamma_request_order_lemma. Qed.
+Print Assumptions C15_gamma_request_order.
+
+Theorem C15_gamma_history_order : forall hg reqs c, map gres_order (gamma_run hg c reqs) = reqs.
+Proof. exact gamma_run_order_lemma. Qed.
+Print Assumptions C15_gamma_history_order.
+
+Example C15_gamma_cache_reachable :
+  gamma_run (fun i => negb (Nat.eqb i 3)) [] [[0; 1]; [1; 0]; [0; 1]; [3; 0]]%nat
+  = [GGroup 0 [0; 1]; GGroup 1 [1; 0]; GGroup 0 [0; 1]; GIdeal [3; 0]]%nat.
+Proof. vm_compute. reflexivity. Qed.
+
 (* ---- SLE ---- *)
 (* a call moves only the named solute (and nothing at all when the solute is unknown) *)
 Theorem C15_sle_only_solute_moves : forall V o st s a st' s' r,
